@@ -294,6 +294,9 @@ func init() {
 		for k := 0; k < n; k++ {
 			i.assumeInternal(i.ctx.Eq(i.ctx.Apply(fmt.Sprintf("D_%d_%d", n, k), smt.BV(8), out...), ts[k]))
 		}
+		// the point of E this path used goes into the replay vector (kind "uf": input bytes then output bytes), so
+		// that the compiled model can reproduce a counterexample that depends on the VALUE the solver chose for E(x)
+		i.nondet = append(i.nondet, NondetRec{Name: "E", Kind: "uf", Len: n, Terms: append(append([]*smt.Term{}, ts...), out...)})
 		return mkStr(res)
 	}
 }
